@@ -39,8 +39,8 @@ PROPS["C02"]["units"] = ["parse", "index", "object"]
 PROPS["C02"]["level_note"] = _PARSE_NOTE + " Key lookups: every lookup of Object -- get, get_entries, get_with_index, get_entries_with_index (their four macro-generated iterators taken from the macro-expanded crate, R13), indexes_of, index_of, redundant_index_of, contains_key, get_unique, get_unique_entry -- is proved to answer as a linear scan over the entries does, in document order (`positions(list, key)`), from the representation invariant wf() that every mutating operation re-establishes (unit object), under the assumed IndexMap contract; the adapter tail `.map(IntoIterator::into_iter).unwrap_or_default()` is modelled (R12); Indexes proved (unit index). Also proved: get_unique_mut, get_or_insert_with, get_mut_or_insert_with (values handed out mutably: only that value can change, the object stays well formed). Not under contract: get_mut / ValuesMut* (unsafe transmute), iter_mut."
 PROPS["C14"] = {
     "units": ["object", "order"], "kani": [], "replay": [], "title": "Equality, ordering and hashing depend only on content", "level": "proof",
-    "level_text": "Frame contracts: Object's PartialEq/PartialOrd/Ord/Hash results are functions of the two entry sequences only (they delegate to Vec<Entry>), for every object and every state of the key index; together with C06 (the entry sequence is determined by the list model, not by the history) this gives history independence. The order itself (unit order): the compiler-derived `eq`, `partial_cmp`, `cmp` of Value and of Entry<K, V> are taken from the macro-expanded crate (R13) and proved to compute the recursive specifications veq / vcmp (by kind -- null < boolean < number < string < array < object --, then by content: arrays and entry lists lexicographically, an entry by key then value), and vcmp is proved to be a total order consistent with ==: reflexive, dual (cmp(b, a) is the reverse of cmp(a, b)), transitive, Equal exactly when == holds, == an equivalence (lemma_value_order_lawful, by structural induction), given that the orders of the dependency types (NumberBuf, SmallString for strings and keys) are.",
-    "level_note": "assumed: Vec<Entry>'s Eq/Ord/Hash are functions of the element sequence (unit object). Unit order: the orders / equalities of the dependency types NumberBuf and SmallString are total orders consistent with their equalities (axiom_leaf_orders); std's `Vec<T>` partial_cmp / cmp are lexicographic through T's own comparison and `false < true`; `core::intrinsics::discriminant_value` is the position of the variant in the declaration of `enum Value` (R12 stub; the numbering Null..Object = 0..5 is written in the unit); Object's comparisons are its entry lists' (unit object); R10 + the knot: Value's three derived impls recurse through Vec<Value> / Object and the trait, so they are verified as inherent methods and the trait-level specification of Value is identified with veq / vcmp by two axioms. Hash is not under contract (derived: feeds the discriminant and the fields in order) -- bounded stand-in",
+    "level_text": "Frame contracts: Object's PartialEq/PartialOrd/Ord/Hash results are functions of the two entry sequences only (they delegate to Vec<Entry>), for every object and every state of the key index; together with C06 (the entry sequence is determined by the list model, not by the history) this gives history independence. The order itself (unit order): the compiler-derived `eq`, `partial_cmp`, `cmp` of Value and of Entry<K, V> are taken from the macro-expanded crate (R13) and proved to compute the recursive specifications veq / vcmp (by kind -- null < boolean < number < string < array < object --, then by content: arrays and entry lists lexicographically, an entry by key then value), and vcmp is proved to be a total order consistent with ==: reflexive, dual (cmp(b, a) is the reverse of cmp(a, b)), transitive, Equal exactly when == holds, == an equivalence (lemma_value_order_lawful, by structural induction), given that the orders of the dependency types (NumberBuf, SmallString for strings and keys) are; the derived `Hash for Value` is proved to be a function of the value, and equal values hash identically (lemma_v_hash).",
+    "level_note": "assumed: Vec<Entry>'s Eq/Ord/Hash are functions of the element sequence (unit object). Unit order: the orders / equalities of the dependency types NumberBuf and SmallString are total orders consistent with their equalities (axiom_leaf_orders); std's `Vec<T>` partial_cmp / cmp are lexicographic through T's own comparison and `false < true`; `core::intrinsics::discriminant_value` is the position of the variant in the declaration of `enum Value` (R12 stub; the numbering Null..Object = 0..5 is written in the unit); Object's comparisons are its entry lists' (unit object); R10 + the knot: Value's three derived impls recurse through Vec<Value> / Object and the trait, so they are verified as inherent methods and the trait-level specification of Value is identified with veq / vcmp by two axioms. Hashing: the derived `Hash for Value` is proved to feed the hasher vhash(value) (kind, then content in a fixed order) and lemma_v_hash proves that values that are == feed it identically, given that the dependency types do (axiom_leaf_hashes) and that std's Vec feeds its length then its items; Entry's derived Hash (generic in K, V: two calls with no specification to verify against) and Object's (unit object: its entries') are assumed here",
     "design_ref": "DESIGN.md §6.6",
 }
 
@@ -119,7 +119,7 @@ for _pid, _t in {
     "C11": _V + ": get_fragment family, array/object IterMapped::next, the four macro-generated keyed iterators (from the macro-expanded crate), their constructors, the unique lookups, and Traverse (== the pre-order fragment list)" + _B + "count / volume, TryFromJson",
     "C12": _V + ": SmallString::parse_in == option-parametric str_run, options frame, through doc(.., options), the option record reaching the parser unchanged through every *_with entry point" + _B + "lenient decoding over byte slices (std decoding assumed)",
     "C13": _V + ": generic container printers == documented layout, Value-level printer, width == printed length, no line break without limits" + _B + "to_string end to end",
-    "C14": _V + ": frame contracts (Object's Eq/Ord/Hash read the entry list only); the derived eq / partial_cmp / cmp of Value and Entry (from the macro-expanded crate) == a recursive specification proved to be a total order consistent with ==" + _B + "hashing, the dependency types' own orders, history independence end to end",
+    "C14": _V + ": frame contracts (Object's Eq/Ord/Hash read the entry list only); the derived eq / partial_cmp / cmp of Value and Entry (from the macro-expanded crate) == a recursive specification proved to be a total order consistent with ==; derived Hash for Value == vhash, equal values hash identically" + _B + "the dependency types' own orders and hashes, history independence end to end",
 }.items():
     PROPS[_pid]["technique"] = _t
 
